@@ -26,5 +26,8 @@ def run(ctx):
     # two-hop (24 Anchor accounts: the Kani struct+handler harness ran out of memory): distinct pools and shared intermediate mint are decided by Engine M in handler mode
     from props import mextra
     ctx.mir()
-    ctx.parallel(mextra.c15_tasks(), max_procs=2)
+    # c15m: the Anchor-generated account validation (has_one / address / constraint / mut / Signer) of the payout, swap, update and close instructions from its MIR:
+    #   on every accepting path the accounts are the named pool's (vaults, mints, position link, reward vault per index) — seconds, where the Kani struct harnesses are thorough-tier
+    from props import c15m
+    ctx.parallel(mextra.c15_tasks() + c15m.tasks(), max_procs=8)
     ctx.run_kani(['c04.rs', 'c04p.rs', 'c15.rs'])
